@@ -6,7 +6,7 @@ set -u
 VERIF="$(cd "$(dirname "${BASH_SOURCE[0]}")/.." && pwd)"
 P="$1"; V="$2"; shift 2
 SRC="${SEEDROOT:-/tmp/seed}-$P/SEED/$V"
-S=/tmp/rce-scratch
+S="${SCRATCH:-/tmp/rce-scratch}"
 OUT="$VERIF/seeded/$P-${OUTV:-$V}"
 [ -f "$SRC/patch.diff" ] || { echo "no $SRC/patch.diff"; exit 2; }
 mkdir -p "$OUT"
